@@ -183,6 +183,18 @@ def run(ctx: Ctx):
         if not calls or not gp.dominated(gp.exit, calls):
             ctx.fail("Node.receive_dwa", rd.loc(), "a received DWA does not reset the watchdog "
                      "(connection is closed although the peer answered)")
+        else:
+            # ... on exceptional paths too: nothing that can raise precedes the reset
+            from ..effects import effects_of
+            ge = cfg_of(rd, effects=effects_of(model))
+            ecalls = [n for n in ge.nodes if any(A.call_name(c) == f"{p}.reset_last_dwa" for c in n.calls())]
+            before = ge.reach([ge.entry], blocked=ecalls)
+            esc = [n for n in before if n.raises and any(l in ("exc", "raise") for l, _ in n.succ)]
+            if esc:
+                ctx.fail("Node.receive_dwa#raises-first", ge.loc(esc[0]), f"`{esc[0].text(80)}` can raise "
+                         f"({sorted(esc[0].raises)}) before the watchdog is reset: the exception is "
+                         f"swallowed by _receive_message, the connection stays in READY_WAITING_DWA "
+                         f"and is closed with DWA_TIMEOUT although the DWA arrived in time")
         if any(n.has_call("send_message") for n in gp.nodes):
             ctx.fail("Node.receive_dwa#send", rd.loc(), "receive_dwa transmits a message")
     # clocks
